@@ -37,7 +37,7 @@ CHECKS = {
     "C04": dict(
         level="exploration",
         technique="bounded-exhaustive enumeration of literal-span documents x option settings; sequence comparison of extracted spans (two readers for code blocks)",
-        text="Every code block of the space (fence character x length x info string x every content line sequence over an 18-line alphabet "
+        text="Every code block of the space (fence character x length x fence indentation x info string x every content line sequence over an 18-line alphabet "
              "including fence-like, prefix-like, blank, tab and trailing-space lines x container contexts x terminated/unterminated) and every "
              "sequence of literal-span tokens (code spans with every backtick configuration, links/images with every destination/title style, "
              "autolinks, bare URLs, inline HTML, template tags, comments) next to typography tokens in paragraphs, headings, list items and table "
@@ -51,8 +51,9 @@ CHECKS = {
         text="Every paragraph over template tags, comments, inline HTML, code spans, links and words with every separator in {adjacent, space, "
              "newline}, in list/quote contexts, at every critical width (so every construct is wider than the width for some case) and width 0, "
              "in both modes: each construct must come out intact on one line, in order, and each gap must carry whitespace iff it did in the "
-             "input; a tag alone on an unindented line must stay so. Every tag-delimited block (4 tag syntaxes x 9 contents x blank-line and "
-             "indentation variants x widths x modes) must keep its tag lines alone and unindented, keep the list/table, and separate it from the tags by blank lines.",
+             "input; a tag alone on an unindented line must stay so; runs of up to 4 (5 thorough) tags with every mix of adjacent / separated "
+             "boundaries at every critical width. Every tag-delimited block (4 tag syntaxes x 9 contents x blank-line and "
+             "indentation variants x widths x modes, also after 8 kinds of preceding code / HTML blocks with unusual fences) must keep its tag lines alone and unindented, keep the list/table, and separate it from the tags by blank lines.",
         note="Trusted: literal token search in the output; Reader A for the list/table clause. Indented closing tags are outside the property (only required to survive).",
         ref="DESIGN.md §2 C06"),
     "C07": dict(
@@ -60,7 +61,7 @@ CHECKS = {
         technique="bounded-exhaustive enumeration of frontmatter line sequences x terminators x closers x bodies x options; differential oracle format(fm+body) = fm + format(body)",
         text="Every frontmatter body of up to 2 (quick) / 3 (thorough) lines over a 21-line alphabet (quotes, dots, Markdown syntax, trailing "
              "spaces, blank lines, a long line, and one line per character that Python's splitlines treats as a line boundary: U+2028, U+2029, "
-             "NEL, FF, VT, FS/GS/RS, lone CR) x LF/CRLF x 4 closing-line forms (incl. missing) x leading blank line x 13 bodies x 8 option sets is "
+             "NEL, FF, VT, FS/GS/RS, lone CR) x LF/CRLF x 4 closing-line forms (incl. missing) x leading blank line x 17 bodies (incl. uniformly indented ones) x 8 option sets is "
              "formatted; closed frontmatter must come out byte-identical (CRLF->LF) followed by exactly what the body alone formats to; unclosed "
              "frontmatter must come back unchanged plus a final newline and be a fixed point.",
         note="Trusted: the 12-line reference splitter in checks/c07.py. Bodies that begin with '---' are excluded from the independence clause.",
@@ -92,7 +93,7 @@ CHECKS = {
              "tight/loose list, wrapped, heading, nested-first) x every tight/blank gap pattern x bullet/ordered x 7 contexts (quote, footnote, list, "
              "neighbours) is formatted in all three list-spacing modes: loose makes every multi-item list loose, tight makes every list of single-block "
              "items tight, preserve keeps each list's tightness, and the three outputs are equal up to blank lines and in structure. Every heading "
-             "(5 forms x every sequence of up to 3 emphasis tokens x 4 contexts) is formatted with and without cleanups: the re-parsed tree must equal "
+             "(5 forms x every sequence of up to 2 (quick) / 3 emphasis tokens x 11 contexts incl. footnote definitions, ordered items, alerts and two-layer nestings) is formatted with and without cleanups: the re-parsed tree must equal "
              "a 10-line reference unbolding of the cleanups-off tree and only heading lines may differ.",
         note="Trusted: Reader A (Marko) for tightness and structure; the reference unbold in checks/c10.py.",
         ref="DESIGN.md §2 C10"),
@@ -136,7 +137,8 @@ CHECKS = {
              "and in sub/deep take every sequence of 1-2 lines over a 24-pattern alphabet (basename, anchored, multi-segment, directory-only, *, **, "
              "?, negations, comment, escaped #, trailing space), alone, in pairs and in triples; for each configuration and for both walk roots "
              "the listing of FileResolver must equal `git ls-files -co --exclude-standard` run in the same tree (ignore files above the walk root "
-             "removed for git), and with respect_gitignore off it must equal the listing with no .gitignore at all.",
+             "removed for git), and with respect_gitignore off it must equal the listing with no .gitignore at all. History space: every sequence of 2 "
+             "(quick) / 3 (thorough) configurations written to one directory path within one process, a new FileResolver per step, each listing equal to git's.",
         note="Trusted: git 2.39 with a private HOME and neutral configuration as the oracle.",
         ref="DESIGN.md §2 C18"),
     "C17": dict(
@@ -145,32 +147,35 @@ CHECKS = {
         text="On a universe tree (files around the size limit, other extensions, hidden files, default- and user-excluded directories, the same "
              "directory name at several places, links to files and directories inside and outside, a dangling link, a cycle; with and without "
              "the links) a .flowmarkignore is placed at 4 places with each of 8 rule sets; for each of 8 setting combinations every sequence of "
-             "up to 2 (quick) / 3 (thorough) arguments out of 12 (directories, explicit files incl. excluded / oversized / linked ones, globs) in "
+             "up to 2 (quick) / 3 (thorough) arguments out of 14 (directories, explicit files incl. excluded / oversized / linked ones, globs) in "
              "every order and under two directory listing orders is resolved and must equal an independent reference walk written from the property "
-             "text (own gitignore matcher, validated against git): absolute, sorted, unique, independent of argument and listing order.",
+             "text (own gitignore matcher, validated against git): absolute, sorted, unique, independent of argument and listing order. History space: "
+             "every sequence of 2 (quick) / 3 (thorough) tree states on ONE directory path within one process (ignore file moved / rewritten, a file "
+             "growing over the limit, a directory appearing), a new FileResolver per step, each listing equal to the reference for the tree at that moment.",
         note="Trusted: the reference walk and vf/ignore_ref.py (agrees with git on all 600 one- and two-line pattern sets of the C18 alphabet).",
         ref="DESIGN.md §2 C17"),
     "C14": dict(
         level="fault_enumeration",
         technique="exhaustive crash-point, torn-write and fault enumeration on the real write path under an audit-hook fault injector",
         text="flowmark.cli.main runs in a forked child on a private tmpfs tree with every file-system operation numbered by an audit hook and "
-             "write/close wrappers. For 14 scenarios (in place with/without backup, --auto, 3 files, an undecodable file in the middle, -o into new "
-             "directories, -o onto an existing file, stdin to -o, stdout only, a stale .orig, a .orig symlink, the formatter raising, a directory) "
+             "wrappers around open/os.open/write/close. For 18 scenarios (in place with/without backup, --auto, 3 files, an undecodable file in the middle, -o into new "
+             "directories, -o onto an existing file, stdin to -o, stdout only, a stale .orig, a .orig symlink, the formatter raising, a directory, symlink and hard-link inputs) "
              "the run is repeated with a crash before every operation and after every byte prefix of every write, with each of 4 errno values "
              "injected at every operation (writes also after a short prefix), and in the thorough tier with every pair of faults. After each "
              "execution every target holds the complete old or new content (or is absent with .orig == old when backups are on), no other file "
-             "changed, and exit 0 implies everything was formatted.",
-        note="Process-death model with a coherent page cache (no power-loss reordering; flowmark does not fsync). Operations are observed at the Python audit-event / file-object level.",
+             "changed, and exit 0 implies everything was formatted. Conformance of the operation model: every scenario also runs fault-free as a real "
+             "subprocess under strace and the attempted mutating system calls on the scenario directory must be exactly the numbered operations.",
+        note="Process-death model with a coherent page cache (no power-loss reordering; flowmark does not fsync). Operations are observed at the Python audit-event / file-object / os-level API and validated against strace (skipped and recorded when ptrace is unavailable).",
         ref="DESIGN.md §2 C14"),
     "C13": dict(
         level="model_checking",
         technique="explicit-state exploration of call histories (fresh process per sequence, state fingerprints) and stateless exploration of all thread schedules up to a preemption bound under a controlled scheduler",
-        text="Histories: every sequence of up to 2 (quick) / 3 (thorough) calls over 56 actions (14 setter/observer documents for each mutable "
-             "renderer, parser and wrapper field x 4 option sets) runs in a fresh forked process that never called flowmark; after every call the "
+        text="Histories: every sequence of up to 2 (quick) / 3 (thorough) calls over 88 actions (22 setter/observer documents for each mutable "
+             "renderer, parser and wrapper field, incl. documents that START with the construct reading a field and documents sharing link targets, x 4 option sets) runs in a fresh forked process that never called flowmark; after every call the "
              "output must equal the action's first-call-in-a-fresh-process baseline; process-wide mutable state is fingerprinted after every call. "
-             "Schedules: two threads, one reformat_text call each, on 4 colliding document pairs under a cooperative scheduler whose scheduling points "
-             "are all call events into flowmark/marko code (600-1500 per call): ALL schedules with one preemption, and in the thorough tier all "
-             "schedules with two preemptions at flowmark-function granularity; every thread's result must equal its solo result; sampled schedules "
+             "Schedules: two threads, one reformat_text call each, on 8 colliding document pairs (both sides use the same construct with different "
+             "parameters) under a cooperative scheduler whose scheduling points are all call events into flowmark/marko code (600-1500 per call): ALL "
+             "schedules with one preemption, and all schedules with two preemptions at flowmark-function granularity (first 4 pairs quick, all pairs thorough); every thread's result must equal its solo result; sampled schedules "
              "are replayed and must reproduce identically.",
         note="Function-call granularity under the GIL; no weak-memory effects exist for pure-Python state. Lazily built caches are warmed before scheduling so that point counts are stable.",
         ref="DESIGN.md §2 C13"),
@@ -182,7 +187,8 @@ CHECKS = {
              "entities, an astral character, U+4E2D, the internal placeholder syntax, CR/LF mixes) is formatted under 4 option sets (default, narrow "
              "with everything on, negative width, plaintext): no exception, no timeout, final newline in Markdown mode, no added control characters "
              "or placeholders, no trailing spaces on blank code lines. Every pump unit of <= 2 tokens out of 51 x prefix x suffix x option set is "
-             "formatted at sizes 16..1024 (4096 thorough): CPU time < 10 s and growth exponent <= 2.5 between the two largest sizes above 20 ms.",
+             "formatted at sizes 16..1024 (4096 thorough): CPU time < 10 s and growth exponent <= 2.5 between the two largest sizes above 20 ms. Lines space: "
+             "every document of 3 (thorough: up to 4) short lines x 7 containers (incl. lazy continuation) x every line ending in {newline, backslash break, two-space break}.",
         note="Timing oracle: process CPU time, re-measured before alarming. Declared nesting bound 12 (container-opening units are pumped line-wise beyond it).",
         ref="DESIGN.md §2 C12"),
     "C05": dict(
